@@ -499,6 +499,21 @@ func runC02(x *xctx) *violation {
 			if v := flipAll("flip-payload", payload, gz); v != nil {
 				return v
 			}
+			// ... and behind a wrapper that is itself damaged at its end (an
+			// interrupted copy of an already corrupt file): trailer cut short,
+			// checksum wrong, stray bytes appended
+			for i := range payload {
+				mut := append([]byte{}, payload...)
+				mut[i] ^= 0x01
+				z := gz(mut)
+				bad := append([]byte{}, z...)
+				bad[len(bad)-6] ^= 0xFF
+				for wi, w := range [][]byte{z[:len(z)-4], bad, append(append([]byte{}, z...), 0, 0, 0, 0)} {
+					if v := try("flip-payload+gzip-trailer", fmt.Sprintf("payload byte %d bit 0 flipped, recompressed, gzip trailer %s", i, []string{"cut by 4 bytes", "checksum inverted", "followed by 4 stray bytes"}[wi]), w); v != nil {
+						return v
+					}
+				}
+			}
 		} else if v := flipAll("flip", data, ident); v != nil {
 			return v
 		}
